@@ -15,7 +15,9 @@ MODULE = "Xandikos.Theorems.C05Tree"
 
 RES = {"InvalidETag": "invalidEtag", "DuplicateUidError": "dupUid", "NoSuchItem": "noSuchItem", "LockedError": "locked"}
 # how many steps of the model an operation has completed when it stands at a yield point
-STEPS_AT = {"tree": {"check": 1, "before-lock": 1, "locked": 2, "commit": 3},
+# ("committed": tree store — the ref has moved but index.lock is held and the index, which is what other
+# writers read, is not rewritten yet: for them the same as "commit"; bare store — the operation is complete)
+STEPS_AT = {"tree": {"check": 1, "before-lock": 1, "locked": 2, "commit": 3, "committed": 3},
             "bare": {"check": 1, "tree-read": 2, "commit": 2}}
 
 
@@ -274,6 +276,22 @@ def http_pairs(e0_quoted):
     ]
 
 
+def http_mids():
+    """requests that have nothing to do with the two writers (another collection, read-only requests):
+    sent, and answered, while the first writer is stopped and before the second one is sent"""
+    H = "/user/calendars/"
+    xml = {"Content-Type": "text/xml"}
+    return [
+        ("none", []),
+        ("delete-of-another-collection", [("DELETE", H + "old/", {}, b"")]),
+        ("mkcalendar-and-listing", [("MKCALENDAR", H + "fresh/", {}, b""),
+                                    ("PROPFIND", H, dict(xml, Depth="1"), b'<D:propfind xmlns:D="DAV:"><D:allprop/></D:propfind>')]),
+        ("proppatch-of-another-collection", [("PROPPATCH", H + "old/", xml,
+                                              b'<D:propertyupdate xmlns:D="DAV:"><D:set><D:prop><D:displayname>n</D:displayname>'
+                                              b'</D:prop></D:set></D:propertyupdate>')]),
+    ]
+
+
 def http_state(srv):
     from httpdrv import parse_multistatus
     r = srv.request("PROPFIND", "/user/calendars/calendar/", {"Depth": "1", "Content-Type": "text/xml"},
@@ -301,18 +319,28 @@ def http_threads(chk, quick):
         def fresh():
             root = scratch_dir()
             srv = make_server(fe, root + "/data", prefix="/")
+            srv.request("MKCALENDAR", "/user/calendars/old/", {}, b"")
+            srv.request("PUT", "/user/calendars/old/o.ics", {"Content-Type": "text/calendar"}, body("uo", "o").encode())
             r = srv.request("PUT", "/user/calendars/calendar/a.ics", {"Content-Type": "text/calendar"},
                             body("ua", "prior a").encode())
             return root, srv, r.header("ETag")
         root, srv, e0 = fresh()
         srv.close()
         shutil.rmtree(root, ignore_errors=True)
-        for label, ra, rb in http_pairs(e0)[: (2 if quick else 4)]:
-            # sequential outcomes, both orders
+        pairs = http_pairs(e0)[: (2 if quick else 4)]
+        mids = http_mids()
+        # quick: every pair without interposed requests, the first pair with each kind of them
+        combos = [(p, m) for p in pairs for m in mids] if not quick else \
+            [(p, mids[0]) for p in pairs] + [(pairs[0], m) for m in mids[1:]]
+        for (label0, ra, rb), (mlabel, mid) in combos:
+            label = label0 if not mid else label0 + "+" + mlabel
+            # sequential outcomes, both orders (the interposed requests first: they are independent of A and B)
             seq = []
             for order in ((ra, rb), (rb, ra)):
                 root, srv, _ = fresh()
                 try:
+                    for rq in mid:
+                        srv.request(*rq)
                     st = [http_class(srv.request(*rq).status) for rq in order]
                     seq.append((st if order[0] is ra else st[::-1], http_state(srv)))
                 finally:
@@ -338,6 +366,10 @@ def http_threads(chk, quick):
                     ta = threading.Thread(target=lambda: res.__setitem__("A", srv.request(*ra).status), daemon=True)
                     ta.start()
                     ctl.paused.wait(10)
+                    for rq in mid:
+                        tm = threading.Thread(target=lambda rq=rq: srv.request(*rq), daemon=True)
+                        tm.start()
+                        tm.join(3.0)
                     tb = threading.Thread(target=lambda: res.__setitem__("B", srv.request(*rb).status), daemon=True)
                     tb.start()
                     tb.join(0.4)
@@ -355,10 +387,12 @@ def http_threads(chk, quick):
                 if not any(got == s for s in seq):
                     chk.violation(f"C05:not-serialisable:http-threads:{fe}",
                                   f"{fe}: {label}: request A's worker stopped at yield point {i} ({ctl.points[-1] if ctl.points else '?'}), "
+                                  f"{'then ' + mlabel + ', ' if mid else ''}"
                                   f"request B sent, A released: answers {got[0]}, members {got[1]} — neither sequential order gives this "
                                   f"(A;B: {seq[0]}, B;A: {seq[1]})",
                                   {"level": "http", "frontend": fe, "scenario": label, "A": [ra[0], ra[1], ra[2]],
-                                   "B": [rb[0], rb[1], rb[2]], "paused_at": i, "statuses": [res.get("A"), res.get("B")],
+                                   "B": [rb[0], rb[1], rb[2]], "interposed": [[m[0], m[1]] for m in mid],
+                                   "paused_at": i, "statuses": [res.get("A"), res.get("B")],
                                    "members": got[1], "sequential": [[s[0], s[1]] for s in seq]})
 
 
